@@ -258,6 +258,9 @@ func (s *Sim) replyGet(r *mqReq, rec Rec) []byte {
 
 func (s *Sim) replyAccess(r *mqReq, rec Rec, out, arg string) []byte {
 	rec["kind"] = "access"
+	if strings.HasPrefix(out, "rawacc:") {
+		return []byte(out[7:])
+	}
 	switch out {
 	case "deny":
 		return []byte(`{"result":{"get":false}}`)
